@@ -250,13 +250,22 @@ var tx0 = [12]byte{'c', '1', '7', 0, 0, 0, 0, 0, 0, 0, 0, 1}
 
 // signedAllocate builds a real Allocate request carrying username/realm and
 // signed with the long-term key derived from the *presented* password.
+// emptyKeyPassword marks a request that is signed with the empty HMAC key: what a
+// client that knows no secret at all can compute.
+const emptyKeyPassword = "\x00sign-with-the-empty-key"
+
 func signedAllocate(tx [12]byte, username, realm, nonce, password string) []byte {
+	key := wire.LongTermKey(username, realm, password)
+	if password == emptyKeyPassword {
+		key = nil
+	}
+
 	return wire.New(wire.Allocate, wire.Request, tx).
 		U32(wire.AttrRequestedTransport, 17<<24).
 		Str(wire.AttrUsername, username).
 		Str(wire.AttrRealm, realm).
 		Str(wire.AttrNonce, nonce).
-		Integrity(wire.LongTermKey(username, realm, password)).Bytes()
+		Integrity(key).Bytes()
 }
 
 // authenticates is the end-to-end judgement: does a request signed with the
